@@ -65,13 +65,13 @@ Theorem tensor_norm_homogeneous : forall (w : @tweight R) (p : expo) (k : R) (x 
 Proof. exact t_norm_v_homog. Qed.
 Print Assumptions tensor_norm_homogeneous.
 
-(* triangle inequality, p in {1, 2, inf} *)
-Theorem tensor_norm_triangle_partial : forall (w : @tweight R) (p : expo) (x y : list R),
+(* triangle inequality, EVERY exponent (Minkowski for every natural p >= 1, and inf) *)
+Theorem tensor_norm_triangle : forall (w : @tweight R) (p : expo) (x y : list R),
   length x = length y -> tw_ok (length x) w ->
-  (p = PFin 1 \/ p = PFin 2 \/ p = PInf) ->
+  (match p with PFin q => (1 <= q)%nat | PInf => True end) ->
   t_norm_v w p (vadd x y) <= t_norm_v w p x + t_norm_v w p y.
-Proof. exact t_norm_v_triangle. Qed.
-Print Assumptions tensor_norm_triangle_partial.
+Proof. exact t_norm_v_triangle_all. Qed.
+Print Assumptions tensor_norm_triangle.
 
 (* dist(x, y) = norm(x - y) (the duplicated formulas of ConstWeighting.dist), and symmetric *)
 Theorem tensor_dist_norm_sub : forall (w : @tweight R) (p : expo) (x y : list R),
@@ -189,3 +189,116 @@ Theorem pspace_dist_norm_refuted : exists q (s : @space R) (x y : @elem R),
   (exists d, sp_dist q s x y = Ok d) /\ sp_norm q s (esub x y) = NotImpl.
 Proof. exact pspace_norm_refuted. Qed.
 Print Assumptions pspace_dist_norm_refuted.
+
+(* ================= complex tensor spaces, data as (re, im) ================= *)
+(* c_inner_v w xr xi yr yi = (Re, Im) of  sum_i w_i x_i conj(y_i)   (_inner_default = vdot(x2, x1)) *)
+
+Theorem complex_inner_conjugate_symmetric : forall (n : nat) (w : @tweight R) (xr xi yr yi : list R),
+  length xr = n -> length xi = n -> length yr = n -> length yi = n ->
+  c_inner_v w yr yi xr xi = (fst (c_inner_v w xr xi yr yi), - snd (c_inner_v w xr xi yr yi)).
+Proof. exact c_inner_conj_sym. Qed.
+Print Assumptions complex_inner_conjugate_symmetric.
+
+(* <a x + z, y> = a <x, y> + <z, y> for a = ar + i ai *)
+Theorem complex_inner_linear_first : forall (n : nat) (w : @tweight R) (ar ai : R) (xr xi zr zi yr yi : list R),
+  length xr = n -> length xi = n -> length zr = n -> length zi = n -> length yr = n -> length yi = n ->
+  let '(re, im) := c_inner_v w xr xi yr yi in
+  let '(zre, zim) := c_inner_v w zr zi yr yi in
+  c_inner_v w (vadd (cscal_r ar ai xr xi) zr) (vadd (cscal_i ar ai xr xi) zi) yr yi
+  = (ar * re - ai * im + zre, ar * im + ai * re + zim).
+Proof. exact c_inner_linear_first. Qed.
+Print Assumptions complex_inner_linear_first.
+
+Theorem complex_inner_positive : forall (n : nat) (w : @tweight R), tw_ok n w -> forall xr xi : list R,
+  length xr = n -> length xi = n ->
+  snd (c_inner_v w xr xi xr xi) = 0 /\ 0 <= fst (c_inner_v w xr xi xr xi) /\
+  (fst (c_inner_v w xr xi xr xi) = 0 -> Forall (fun a => a = 0) xr /\ Forall (fun a => a = 0) xi).
+Proof. exact c_inner_positive. Qed.
+Print Assumptions complex_inner_positive.
+
+Theorem complex_cauchy_schwarz : forall (n : nat) (w : @tweight R), tw_ok n w -> forall xr xi yr yi : list R,
+  length xr = n -> length xi = n -> length yr = n -> length yi = n ->
+  let '(re, im) := c_inner_v w xr xi yr yi in
+  re * re + im * im <= fst (c_inner_v w xr xi xr xi) * fst (c_inner_v w yr yi yr yi).
+Proof. exact c_cauchy_schwarz. Qed.
+Print Assumptions complex_cauchy_schwarz.
+
+(* ================= leaves (tensor AND discretized), every exponent ================= *)
+(* [leaf_okp lf n]: positive weights, exponent inf or natural p >= 1, n entries, well-formed
+   partition.  [leaf_w q lf n]: (tensor-space weight) x (boundary-cell fractions), the fractions
+   being present exactly when the code applies them.  [leaf_norm_v]: the documented weighted
+   p-norm  (sum_i W_i |x_i|^p)^(1/p)  resp.  max_i w_i |x_i|. *)
+
+(* DiscretizedSpace._norm scales boundary slices by frac^(1/p) and calls the tensor norm:
+   the result IS the documented weighted p-norm, no exception is raised *)
+Theorem leaf_norm_documented : forall q (lf : @leaf R) (x : list R),
+  leaf_okp lf (length x) -> x <> [] -> leaf_norm q lf x = Ok (leaf_norm_v q lf x).
+Proof. exact leaf_norm_value. Qed.
+Print Assumptions leaf_norm_documented.
+
+(* dist(x, y) = norm(x - y) on every leaf, including DiscretizedSpace._dist which scales x and y separately *)
+Theorem leaf_dist_is_norm_of_difference : forall q (lf : @leaf R) (x y : list R),
+  leaf_okp lf (length x) -> x <> [] -> length y = length x ->
+  leaf_dist q lf x y = Ok (leaf_norm_v q lf (vsub x y)).
+Proof. exact leaf_dist_value. Qed.
+Print Assumptions leaf_dist_is_norm_of_difference.
+
+Theorem leaf_norm_homogeneous : forall q (lf : @leaf R) (k : R) (x : list R),
+  leaf_okp lf (length x) -> leaf_norm_v q lf (vscal k x) = Rabs k * leaf_norm_v q lf x.
+Proof. exact leaf_norm_homog. Qed.
+Print Assumptions leaf_norm_homogeneous.
+
+Theorem leaf_norm_triangle_inequality : forall q (lf : @leaf R) (x y : list R),
+  leaf_okp lf (length x) -> length y = length x ->
+  leaf_norm_v q lf (vadd x y) <= leaf_norm_v q lf x + leaf_norm_v q lf y.
+Proof. exact leaf_norm_triangle. Qed.
+Print Assumptions leaf_norm_triangle_inequality.
+
+(* exponent 2: inner(x, x) is the weighted sum and norm = sqrt(inner(x, x)) on every leaf *)
+Theorem leaf_norm2_sqrt_inner : forall q (lf : @leaf R) (x : list R),
+  leaf_okp lf (length x) -> leaf_expo lf = PFin 2 ->
+  leaf_inner q lf x x = Ok (wdot (leaf_w q lf (length x)) x x) /\
+  leaf_norm_v q lf x = sqrt (wdot (leaf_w q lf (length x)) x x).
+Proof. exact leaf_norm2_inner. Qed.
+Print Assumptions leaf_norm2_sqrt_inner.
+
+(* ================= nested product spaces, mixed exponents ================= *)
+(* [normable q s x]: every node has exponent inf or natural p >= 1, positive weights and >= 1
+   component; an exponent-2 node that goes through inner (today's code) sits on an all-exponent-2
+   subtree.  [sp_norm_v]: the documented value -- weighted p-norm [comb_v] of the vector of
+   component norms (weights w_i for every p, i.e. norms scaled by w_i^(1/p)), sqrt(inner) at
+   exponent-2 nodes. *)
+
+(* the code's combination of component norms is the documented weighted p-norm of their vector *)
+Theorem pspace_norm_from_component_norms : forall (w : @pweight R) (p : expo) (norms : list R),
+  pvalid p -> pw_ok (length norms) w -> norms <> [] ->
+  ps_norm_comb w p norms = Ok (comb_v w p norms).
+Proof. exact ps_norm_comb_value. Qed.
+Print Assumptions pspace_norm_from_component_norms.
+
+Theorem pspace_norm_total : forall q (s : @space R) (x : @elem R), normable q s x ->
+  sp_norm q s x = Ok (sp_norm_v q s x) /\ 0 <= sp_norm_v q s x.
+Proof. exact sp_norm_value. Qed.
+Print Assumptions pspace_norm_total.
+
+Theorem pspace_norm_homogeneous : forall q (s : @space R) (k : R) (x : @elem R), normable q s x ->
+  sp_norm_v q s (escal k x) = Rabs k * sp_norm_v q s x.
+Proof. exact sp_norm_homog. Qed.
+Print Assumptions pspace_norm_homogeneous.
+
+Theorem pspace_norm_triangle_inequality : forall q (s : @space R) (x y : @elem R),
+  normable q s x -> same_shape x y ->
+  sp_norm_v q s (eadd x y) <= sp_norm_v q s x + sp_norm_v q s y.
+Proof. exact sp_norm_triangle. Qed.
+Print Assumptions pspace_norm_triangle_inequality.
+
+(* dist(x, y) = norm(x - y): every leaf, every array-weighted product space and every
+   constant-weighted product space whose top node does not take the exponent-2-through-inner
+   path.  (On that path the statement is refuted above when a component has exponent <> 2; for
+   all-exponent-2 components it is validated by the correspondence and probes, not proved.) *)
+Theorem pspace_dist_is_norm_of_difference_partial : forall q (s : @space R) (x y : @elem R),
+  normable q s x -> same_shape x y ->
+  (match s with SProd (PWConst _) p _ => is2 p && q_ps2_via_inner q = false | _ => True end) ->
+  sp_dist q s x y = Ok (sp_norm_v q s (esub x y)).
+Proof. exact sp_dist_value. Qed.
+Print Assumptions pspace_dist_is_norm_of_difference_partial.
